@@ -22,12 +22,21 @@ def inject(sess, suite, n, t, kind):
     real = suite in REAL_SUITES
     ids = make_ids(sess, suite, n, kind)
     d = Dkg(sess, suite, n, t, ids).run()
+    # runs among the same participants with another threshold (for self-consistent wrong-degree senders)
+    alts = [Dkg(sess, suite, n, ta, ids, tag="alt").part1().part2() for ta in sorted({max(2, t - 1), min(n, t + 1)} - {t})] if n >= 3 else []
     if not d.ok:
         return
     outsider = make_ids(sess, suite, 1, "scalar")[0]
     while outsider in ids:
         outsider = make_ids(sess, suite, 1, "scalar")[0]
+    # a self-consistent outsider: its own round-one package and, per receiver, the share of its polynomial
+    o1 = sess.call("dkg1 %s id=%s n=%d t=%d tape=%s" % (suite, outsider, n, t, sess.tape(128 * t + 512)), EXACT, "dkg1-outsider")
     for me in ids:
+        extra = None
+        if o1.ok:
+            ev = sess.call("evalpoly %s x=%s coeffs=%s" % (suite, me, o1["sp"].split(":")[1]), EXACT, "evalpoly")
+            if ev.ok:
+                extra = (o1["pkg"], ev["v"])
         for ell in [x for x in ids if x != me]:
             f = r1_fields(d.pkg1[ell])
             other = [x for x in ids if x not in (me, ell)]
@@ -138,6 +147,34 @@ def inject(sess, suite, n, t, kind):
             r = sess.call(req, EXACT, "dkg3-unknownsender")
             sess.oracle(r.err == "IncorrectPackage", "round-two contribution from an unknown sender: %s" % r.raw, [req])
             sess.case("r2unknown|" + req)
+            # the same sender absent from BOTH maps / a self-consistent outsider present in BOTH maps
+            r1_less = ";".join("%s:%s" % (j, d.pkg1[j]) for j in ids if j not in (me, ell))
+            r2_less = ";".join("%s:%s" % (j, v) for j, v in lst if j != ell)
+            if n >= 3:
+                req = "dkg3 %s sp2=%s r1=%s r2=%s" % (suite, d.sp2[me], r1_less, r2_less)
+                r = sess.call(req, EXACT, "dkg3-missing-both")
+                sess.oracle(r.err == "IncorrectNumberOfPackages", "part3 accepted maps from which one participant is missing altogether: %s" % r.raw[:80], [req])
+                sess.case("bothmissing|" + req)
+            if extra is not None:
+                req = "dkg3 %s sp2=%s r1=%s;%s:%s r2=%s;%s:%s" % (suite, d.sp2[me], r1_str(d.pkg1, me), outsider, extra[0], ";".join("%s:%s" % (j, v) for j, v in lst), outsider, extra[1])
+                r = sess.call(req, EXACT, "dkg3-surplus-both")
+                sess.oracle(r.err == "IncorrectNumberOfPackages", "part3 accepted a self-consistent outsider present in both maps: %s" % r.raw[:80], [req])
+                sess.case("bothsurplus|" + req)
+            # a self-consistent contribution made for ANOTHER threshold reaches part3 (part2 ran on the honest map): the model's
+            # answer is the expectation at every sender position (sum_commitments must not silently truncate more than it does)
+            for alt in alts:
+                if not alt.ok:
+                    continue
+                m1 = dict(d.pkg1)
+                m1[ell] = alt.pkg1[ell]
+                mm = {j: dict(r2m[j]) for j in ids}
+                mm[ell][me] = alt.r2[ell][me]
+                req = "dkg3 %s sp2=%s r1=%s r2=%s" % (suite, d.sp2[me], r1_str(m1, me), r2_str(mm, me))
+                r = sess.call(req, EXACT, "dkg3-other-threshold")
+                if r.ok:
+                    kp, pk = kp_fields(r["kp"]), pkp_fields(r["pkp"])
+                    sess.count("other-threshold-accepted" + ("-inconsistent" if kp["Y"] != pk["vshares"].get(me) else ""))
+                sess.case("otherthreshold|" + req, nontrivial=True)
     sess.count("suite:" + suite)
 
 
